@@ -81,6 +81,8 @@ def all_paths(sites, maxlen):
 
 
 def universe(name):
+    if name == "tiny":       # one branching point: enough for sibling/prefix interplay, deep histories
+        return dict(sites=[1, 2], add=[[1], [1, 1], [1, 2], [1, 1, 1]], never=[2], maxlen=3, exists_last=True)
     if name == "small":      # 2 sites, len <= 2, one invalid path
         return dict(sites=[1, 2], add=all_paths([1, 2], 2) + [[0]], never=[2, 2], maxlen=2)
     if name == "mid":        # 2 sites, len <= 3, four invalid paths
@@ -104,18 +106,19 @@ def canonical_first(p):
     return True
 
 
-def ops_for(u, offered):
+def ops_for(u, offered, last=True):
     """add over the whole alphabet; remove/exists over everything offered so far plus one path never offered."""
     ops = [("add", p) for p in u["add"]]
     targets = [list(t) for t in sorted(offered)] + [u["never"]]
     ops += [("remove", p) for p in targets]
-    ops += [("exists", p) for p in targets]
+    if last or not u.get("exists_last"):
+        ops += [("exists", p) for p in targets]
     return ops
 
 
 def explore(forest, u, depth, first_filter=None):
     def rec(pm, parent, offered, d):
-        for op, p in ops_for(u, offered):
+        for op, p in ops_for(u, offered, d == depth):
             if d == 1 and first_filter and not first_filter(op, p):
                 continue
             child = copy.deepcopy(pm)
@@ -130,7 +133,7 @@ def explore(forest, u, depth, first_filter=None):
         return
     # top level: flush between first-op subtrees
     pm0 = cs.PathManager()
-    for op, p in ops_for(u, set()):
+    for op, p in ops_for(u, set(), depth == 1):
         if first_filter and not first_filter(op, p):
             continue
         child = copy.deepcopy(pm0)
@@ -186,8 +189,8 @@ def main():
     summary = {"families": []}
     forest = Forest(out_dir, "c19", max_nodes=50000)
     plan = {
-        "quick": [("small", 4, None), ("mid", 3, None)],
-        "thorough": [("small", 5, None), ("mid", 4, None),
+        "quick": [("tiny", 5, None), ("small", 4, None), ("mid", 3, None)],
+        "thorough": [("tiny", 7, None), ("small", 5, None), ("mid", 4, None),
                      ("wide", 3, lambda op, p: op == "add" and canonical_first(p))],
     }[tier]
     for name, depth, flt in plan:
